@@ -198,8 +198,9 @@ void vector<T, Allocator>::resize(size_t new_size, Args &&... args) {
 		for(size_t i = new_size; i < _size; i++)
 			_elements[i].~T();
 	}else{
+		// The arguments initialize several elements: they must not be forwarded (moved from).
 		for(size_t i = _size; i < new_size; i++)
-			new (&_elements[i]) T(std::forward<Args>(args)...);
+			new (&_elements[i]) T(args...);
 	}
 	_size = new_size;
 }
